@@ -639,8 +639,8 @@ func runScan(sb *sandbox, infos []exInfo, j scanJob) scanResult {
 	res.Changes = diff(before, after)
 	// Settling: a dependency may still be closing a handle in a goroutine of its own when Scan
 	// returns (go-rpmdb's SQLite reader: the side files disappear a moment later). Only what is
-	// still different after up to 5 s counts; waiting can only remove an alarm, never add one.
-	for i := 0; i < 50 && len(res.Changes) > 0; i++ {
+	// still different after up to 2 s counts; waiting can only remove an alarm, never add one.
+	for i := 0; i < 20 && len(res.Changes) > 0; i++ {
 		time.Sleep(100 * time.Millisecond)
 		res.Changes = diff(before, snapshot(sb.R))
 	}
@@ -700,9 +700,13 @@ func runScanJob(sb *sandbox, infos []exInfo, j scanJob) (scanResult, []viol) {
 		}
 	}
 	if len(vs) == 0 {
+		// no single plugin reproduces it alone (or it is intermittent): a one-plugin tree is
+		// attributed to its plugin, the everything-at-once tree to "combined"
 		who := "combined"
 		if j.Only != "" {
 			who = j.Only
+		} else if j.Ex != "*" {
+			who = j.Ex
 		}
 		cl, what := scanClasses(res.Changes)
 		vs = append(vs, viol{Key: "scan:" + who + ":" + strings.Join(cl, "+"), What: j.String() + ": " + what, Only: j.Only})
